@@ -28,6 +28,19 @@ shape in which two text-indexing transactions both commit in reality):
   T3  `indexed_count` = a Length subclass whose `_p_resolveConflict` keeps the new state         caught
   T4  `_add_wordinfo` / `_mass_add_wordinfo` copy an IFBTree posting of exactly 4 members into a new object
       (the old one is left as it is - the text index's analogue of D20)                          caught
+Builder wt_strong4: modes default-thresholds (10% of the cases: thr 64 / DICT_CUTOFF 10, 60-66 documents under
+the contended keyword / facet / value / text, one side reaches 64, the other changes the same postings) and
+grown-then-shrunk (10%: a text / keyword / facet posting grows to cutoff..cutoff+3 members - an IFBTree / TreeSet
+from cutoff+1 / thr on - and shrinks to 1-5 survivors, DICT_CUTOFF 2/3/10; one side removes all or some survivors -
+never the smallest docid alone -, the other indexes a new document with the same text; with DICT_CUTOFF 10 twelve
+padding documents share one text so that every posting in the `_wordinfo` bucket is a tree).
+  seeded C19_E  (two cooperating edits of _mass_add_wordinfo / _del_wordinfo)      MISSED before, now caught
+  seeded C19_F  (FacetIndex Set -> TreeSet copy at the default threshold)          MISSED before, now caught
+  M19a the D20 repair (`word_idx.clear()`) only when tree_threshold < 64                          caught
+  M19b _mass_add_wordinfo turns an IFBTree posting with < DICT_CUTOFF//2+1 members back into a dict (needs
+       DICT_CUTOFF >= 4, a posting shrunk to 2+ members and a partial removal)                    caught
+  M19c _del_wordinfo drops the `_wordinfo` entry of a one-member IFBTree without emptying the tree   caught
+  M19d FacetIndex.index_doc replaces the posting by a TreeSet copy at exactly 64 members            caught
 """
 import importlib
 import os
@@ -68,7 +81,11 @@ RULE = ("a committed base state (0-12 operations on a catalog with field, keywor
         "and query battery - with an in-memory catalog that ran the base and then the committed transactions "
         "one after the other; the same operations are replayed on the object-level Lean model (field, keyword, "
         "facet, Okapi-text and cosine-text index as heaps of persistent objects) whose merge must succeed whenever both real commits did, "
-        "with the same stored state. non-trivial = both transactions change something and at least one posting / "
+        "with the same stored state. Modes (quick, 640 cases): small 32%, padded 16%, padded-directed 18%, "
+        "padded-trees 8%, padded-trees-directed 7%, default-thresholds 10% (tree_threshold 64, DICT_CUTOFF 10, "
+        "60-66 documents per contended posting, one side reaches 64), grown-then-shrunk 10% (postings that became "
+        "IFBTrees / TreeSets and shrank to 1-5 members, DICT_CUTOFF 2/3/10; removal of the survivors against a new "
+        "member). non-trivial = both transactions change something and at least one posting / "
         "word is shared between them")
 LEVEL_TEXT = ("Lean 4: (1) generic optimistic commit with three-way merges: merged = serial when every doubly "
               "written position merges and the second transaction read nothing the first wrote; (2) per-index "
@@ -232,7 +249,168 @@ def gen_padded(rng, tier, idx):
             "cmds": cmds}
 
 
+def text_words(x):
+    """the words (numbers 0..9) of `c09.make_doc`'s text for a seed below 100"""
+    return [(x // 6 + j * (1 + x % 3)) % len(c09.WORDS) for j in range(x % 6)]
+
+
+def interleave(rng, a, b):
+    out = []
+    ia = ib = 0
+    while ia < len(a) or ib < len(b):
+        if ib >= len(b) or (ia < len(a) and rng.random() < 0.5):
+            out.append(a[ia])
+            ia += 1
+        else:
+            out.append(b[ib])
+            ib += 1
+    return out
+
+
+def finish(rng, cmds, a, b, k):
+    for (who, op, d, spec) in interleave(rng, a, b):
+        cmds.append([who, k[0], op, d] + (spec if spec is not None else []))
+        k[0] += 1
+    first = rng.choice(["a", "b"])
+    cmds.append(["commit", first])
+    cmds.append(["commit", "b" if first == "a" else "a"])
+    cmds.append([rng.choice(["check", "retrycheck"])])
+
+
+def gen_default_thresholds(rng, tier, idx):
+    """The thresholds the classes ship with: KeywordIndex.tree_threshold 64 (FacetIndex inherits the attribute),
+    DICT_CUTOFF 10.  The base leaves 60-66 documents under one keyword / facet / value / text (mostly 62 or 63:
+    just below the default threshold); one transaction indexes enough new documents to reach or pass 64 members,
+    the other one changes the same postings without crossing (removes one of its documents, adds one).  Three
+    padding documents hold the smallest keys everywhere."""
+    npad = 3
+    n_hot = rng.choice([60, 61, 62, 62, 62, 63, 63, 63, 64, 65, 66])
+    nspare = rng.randrange(5, 9)
+    nids = npad + n_hot + nspare
+    live = list(range(npad, nids))
+    rng.shuffle(live)
+    hot_docs, spare = live[:n_hot], live[n_hot:]
+    hot = [rng.choice([1, 2]), rng.choice([2, 4, 6]), rng.choice([1, 2, 4]), rng.choice([7, 13, 20, 27]),
+           rng.choice([7, 13, 20, 27])]
+    k = [0]
+    cmds = []
+    for d in range(npad):
+        cmds.append(["base", k[0], "index", d, 0, 1, 0, 1, 1])
+        k[0] += 1
+    for d in sorted(hot_docs) if rng.random() < 0.5 else hot_docs:
+        cmds.append(["base", k[0], "index", d] + list(hot))
+        k[0] += 1
+    cmds.append(["begin"])
+    cut = rng.randrange(2, nspare - 1)
+    spare_a, spare_b = spare[:cut], spare[cut:]
+    hot_a, hot_b = hot_docs[:n_hot // 2], hot_docs[n_hot // 2:]
+    # the crossing side: as many new members as it takes to reach 64 (at least one), now and then one more
+    need = max(1, 64 - n_hot) + (1 if rng.random() < 0.25 else 0)
+    a = [("a", "index", d, list(hot)) for d in spare_a[:need]]
+    if rng.random() < 0.2:
+        a.insert(rng.randrange(len(a) + 1), ("a", "unindex", rng.choice(hot_a), None))
+    # the other side: changes the same postings and stays below the threshold on its own
+    b = []
+    d1 = rng.choice(hot_b)
+    r = rng.random()
+    if r < 0.45:
+        b.append(("b", "unindex", d1, None))
+    elif r < 0.8:
+        b.append(("b", "reindex", d1, [3, 8, 8, 1, 1]))
+    if rng.random() < 0.7 or not b:
+        b.append(("b", "index", spare_b[0], list(hot)))
+    if rng.random() < 0.5:
+        a, b = [("b",) + x[1:] for x in a], [("a",) + x[1:] for x in b]
+    finish(rng, cmds, a, b, k)
+    r = rng.random()
+    present = ["i1"] if r < 0.3 else ["i2"] if r < 0.6 else ["i1", "i2"] if r < 0.75 else \
+        [rng.choice(["i0", "i3", "i4"])] if r < 0.9 else list(c09.ALL)
+    return {"session": "concurrency",
+            "cfg": [["cfg", "ids", nids], ["cfg", "cutoff", 10], ["cfg", "present"] + present,
+                    ["cfg", "thr", 64], ["cfg", "mode", "default-thresholds"]],
+            "cmds": cmds}
+
+
+def gen_shrunk(rng, tier, idx):
+    """Postings that GREW past a representation threshold and then SHRANK again: a text (its words not used by the
+    padding documents) is indexed under cutoff .. cutoff+3 documents - from cutoff+1 on the words' postings are
+    IFBTrees and stay IFBTrees - and withdrawn again from all but one or two of them; likewise a keyword / facet
+    posting that became a TreeSet.  Then one transaction removes the surviving document(s) of that text while the
+    other one indexes a new document with the same text; padding documents (three per padding text) keep every
+    other word's posting a tree, so that the two transactions meet in nothing but the shrunk postings."""
+    cutoff = rng.choice([2, 2, 3, 10])            # 10 = the class default DICT_CUTOFF
+    thr = rng.choice([2, 3, 4])
+    npad = 6
+    tseeds = rng.sample([7, 13, 20, 27, 9, 15, 22, 29, 35], 2)
+    if cutoff == 10:
+        # twelve padding documents with ONE text: their words' postings are IFBTrees too (a `_wordinfo` bucket that
+        # holds a dict never merges)
+        npad = 12
+        tseeds[1] = tseeds[0]
+    used = set(text_words(tseeds[0])) | set(text_words(tseeds[1]))
+    cands = [x for x in range(1, 60) if x % 6 and set(text_words(x)) - used]
+    disjoint = [x for x in cands if not set(text_words(x)) & used]
+    rare = rng.choice(disjoint if disjoint and rng.random() < 0.5 else cands)
+    g = cutoff + rng.choice([0, 1, 1, 1, 2, 3])
+    nids = npad + g + rng.randrange(4, 8)
+    live = list(range(npad, nids))
+    rng.shuffle(live)
+    grown, spare = live[:g], live[g:]
+    nsurv = min(g, rng.choice([1, 1, 1, 2, 2, 3, 5]))
+    k = [0]
+    cmds = []
+    kw_rare, fac_rare = rng.choice([8, 16, 24]), rng.choice([3, 4, 5])      # keyword / facet of the same documents
+
+    def base(op, d, spec=None):
+        cmds.append(["base", k[0], op, d] + (spec if spec is not None else []))
+        k[0] += 1
+    for d in range(npad):
+        base("index", d, [0, 1, 0, tseeds[d % 2], tseeds[d % 2]])
+    rare_spec = [2, kw_rare, fac_rare, rare, rare]
+    for d in grown:
+        base("index", d, list(rare_spec))
+    for d in grown[nsurv:]:                                                     # shrink
+        if rng.random() < 0.6:
+            base("unindex", d)
+        else:
+            base("reindex", d, [0, 1, 0, rng.choice(tseeds), rng.choice(tseeds)])
+    for _ in range(rng.choice([0, 0, 1, 2])):
+        base("index", rng.choice(spare[2:] or spare), [1, 1, 0, rng.choice(tseeds), rng.choice(tseeds)])
+    cmds.append(["begin"])
+    surv = grown[:nsurv]
+    a = []
+    # all of the survivors (the posting goes away), or some of them (it stays, smaller)
+    # (BTrees refuse to merge the deletion of a bucket's first key: a partial removal spares the smallest docid)
+    part = [d for d in surv if d != min(surv)]
+    for d in surv if rng.random() < 0.6 or not part else part[:rng.randrange(1, len(part) + 1)]:
+        if rng.random() < 0.6:
+            a.append(("a", "unindex", d, None))
+        else:
+            a.append(("a", "reindex", d, [0, 1, 0, rng.choice(tseeds), rng.choice(tseeds)]))
+    b = [("b", "index", spare[0], list(rare_spec))]
+    others = tseeds + [rare]
+    if rng.random() < 0.3:
+        b.append(("b", "index", spare[1], [1, 1, 0, rng.choice(others), rng.choice(others)]))
+    if rng.random() < 0.2:
+        a.append(("a", "index", spare[-1], [1, 1, 0, rng.choice(tseeds), rng.choice(tseeds)]))
+    if rng.random() < 0.5:
+        a, b = [("b",) + x[1:] for x in a], [("a",) + x[1:] for x in b]
+    finish(rng, cmds, a, b, k)
+    r = rng.random()
+    present = [rng.choice(["i3", "i4"])] if r < 0.55 else ["i3", "i4"] if r < 0.7 else \
+        [rng.choice(["i1", "i2"])] if r < 0.85 else list(c09.ALL)
+    return {"session": "concurrency",
+            "cfg": [["cfg", "ids", nids], ["cfg", "cutoff", cutoff], ["cfg", "present"] + present,
+                    ["cfg", "thr", thr], ["cfg", "mode", "grown-then-shrunk"]],
+            "cmds": cmds}
+
+
 def gen(rng, tier, idx):
+    i = idx % 1000003
+    if i % 10 == 3:
+        return gen_default_thresholds(rng, tier, idx)
+    if i % 10 == 6:
+        return gen_shrunk(rng, tier, idx)
     if rng.random() < 0.6:
         return gen_padded(rng, tier, idx)
     nids = rng.randrange(4, 9)
